@@ -19,6 +19,14 @@ CHECKS = {
          "For every distinct document the history explorer reaches and every causally closed head set (all consistent cuts above the base, plus cuts through the base, plus a 40-change chain crossing the clock-cache step): fork_at(H) has heads H, holds exactly ancestors(H), equals the reference interpreter on them, and every *_at(H) read equals the plain read on the fork.",
          "Head sets are derived by the harness from Change::deps(); capped per document (16 quick / 64 thorough).",
          "DESIGN.md §4 C07", H),
+ "C08": ("model_checking", "explicit-state BFS; all ordered pairs of consistent cuts; independent patch applier on a materialised view",
+         "For every distinct document reached (replicas and merges) and ALL ordered pairs of head sets (consistent cuts above the base, empty, current): view(H1) patched with diff(H1,H2) by the harness's own applier equals view(H2) (winners, conflict flags, counters, text units, per-unit marks); AutoCommit::diff incl. its cache; diff_obj recursive and non-recursive for every object in both directions.",
+         "Head-set cap per document 5 (quick) / 12 (thorough). Marks on embedded-object placeholders are not compared (Insert patches carry none).",
+         "DESIGN.md §4 C08", H),
+ "C09": ("model_checking", "explicit-state BFS over AutoCommit replicas each owning a view kept by diff_incremental; edge oracle re-running every transition through the *_log_patches APIs",
+         "(A) every transition of the history explorer redone through transaction_log_patches, merge_and_log_patches, apply_changes_log_patches (one change at a time, reverse order), load_incremental_log_patches and receive_sync_message_log_patches, plus load_with_options{patch_log} and current_state onto the empty view; (B) all programs within budgets over AutoCommit replicas with an armed diff cursor: edit, two-op transactions, edit+rollback, merge, load_incremental, sync, isolate, integrate; after each action the patches must turn the previous view into the view read from the document. One known finding (isolated put on marked text).",
+         "Budgets: edits [2,1], one other action (quick); [2,2], two others (thorough).",
+         "DESIGN.md §4 C09", H),
  "C10": ("model_checking", "explicit-state BFS; per-document exhaustive have-set enumeration; harness SHA-256 over chunk grammar",
          "For every distinct document reached: every retrieval API returns changes that are single change chunks whose harness-computed SHA-256 is their hash, byte-identical to the first-seen bytes of that hash in any replica; get_changes(have) for every consistent cut and every pair of hashes equals all minus ancestors(have), dependency ordered; stable across fork and save/load.",
          "SHA-256 collision resistance; ancestors computed by the harness.",
